@@ -34,9 +34,11 @@ STD_SPEC = "jnp.exp(jnp.clip(0.5 * LV, -20.0, 2.0))"
 
 
 def _method(repo, cq, name):
-    m = repo.method(cq, name, inherited=False)
+    """The method as the class has it: its own, or inherited from a repository base class (a shared base of sibling heads)."""
+    m = repo.method(cq, name)
     if m is None:
         raise AnalysisError(f"{cq}.{name} not found (anchor vanished)")
+    m[1]._module = repo.cls(m[0])._module
     return m[1]
 
 
@@ -112,7 +114,7 @@ def gaussian_head(ck, repo, nf, cq, has_tanh):
         forms[meth] = (ctor, loc_p, scale_p, op, node)
     # expected parameter forms
     net = "self.net(OBS)"
-    m0 = repo.method(cq, "__call__", inherited=False)[1]
+    m0 = _method(repo, cq, "__call__")
     senv = {"OBS": Poly.atom("OBS", {"OBS"}, {"OBS"})}
     ssc = Scope(None, mi, senv, cq, self_class=cq)
     if has_tanh:
@@ -145,6 +147,10 @@ def gaussian_head(ck, repo, nf, cq, has_tanh):
         okc = (ctor, op) == expect[meth]
         ck.ob("R3-distribution-call", site, "distribution", okc, f"dist.{ctor}(...).{op}(...)", "" if okc else f"documented: dist.{expect[meth][0]}(mean, std).{expect[meth][1]}", loc(mi, node))
         okm = loc_p is not None and loc_p == want_mean
+        from ..sem import same_ingredients as _same
+        for got_, want_, what_ in ((loc_p, want_mean, "mean"), (scale_p, want_std, "scale")):
+            if got_ is not None and got_ != want_ and ("φ(" in got_.canon() or not _same(got_, want_mean + want_std, ("OBS",))):
+                raise AnalysisError(f"{site}: the {what_} handed to the distribution `{got_.canon()[:80]}` is not read back to the head's network output (unrecognised form)")
         ck.ob("R1-sibling-agreement", site, "mean", okm, f"loc = {loc_p.canon()[:120] if loc_p is not None else None}", "" if okm else f"the mean handed to the distribution is not the head's mean `{want_mean.canon()[:80]}`", loc(mi, node))
         oks = scale_p is not None and scale_p == want_std
         ck.ob("R1-sibling-agreement", site, "std", oks, f"scale = {scale_p.canon()[:120] if scale_p is not None else None}",
@@ -394,9 +400,12 @@ def run(ck, repo: Repo, tier: str):
     ck.guard(arity_scan, ck, repo)
     subs = repo.subclasses(PH + "StochasticPolicyBase")
     ck.floor("stochastic-heads", len(subs), 3)
+    registered = {PH + "GaussianTanhPolicy", PH + "GaussianPolicy", PH + "SoftmaxPolicy"}
     for cq in subs:
-        if cq.rsplit(".", 1)[1] not in ("GaussianTanhPolicy", "GaussianPolicy", "SoftmaxPolicy"):
-            ck.ob("R1-sibling-agreement", cq, "unregistered-head", False, cq, "a stochastic policy head without sibling-agreement rules", cq)
+        if cq not in registered:
+            if set(repo.subclasses(cq)) & registered:
+                continue      # an intermediate base class of registered heads: its methods are judged through the heads that inherit them
+            ck.incomplete.append(f"{cq}: a stochastic policy head for which no sibling-agreement rules are recorded (not judged)")
 
 
 _H = "rl_blox/blox/function_approximator/policy_head.py"
